@@ -82,6 +82,8 @@ func main() {
 	runDecoderHistories()
 	runDecoderFailureHistories()
 	runSpecialParity()
+	runSyndromeKernelErrors()
+	runRegisterStates()
 	chk.Finish()
 }
 
